@@ -27,7 +27,7 @@ SYNOPTS = [lambda ts: b"\x02\x04\x05\xb4\x04\x02\x08\x0a" + ts.to_bytes(4, "big"
 
 
 def pkt(ver, src, dst, sport, dport, seq, ack, flags, payload=b"", tcpopts=b"", ttl=64, tos=0, ipid=1, fragw=0x4000, ipopts=b"", flow=0,
-        dmac=MACS[0], smac=bytes([2, 0, 0, 0, 0, 1]), win=0xffff):
+        dmac=MACS[0], smac=bytes([2, 0, 0, 0, 0, 1]), win=0xffff, trailer=""):
     """one Ethernet frame; src / dst are 4- or 16-byte sequences"""
     doff = 5 + len(tcpopts) // 4
     tcp = bytes([sport >> 8, sport & 255, dport >> 8, dport & 255]) + (seq % M32).to_bytes(4, "big") + (ack % M32).to_bytes(4, "big") + \
@@ -36,9 +36,18 @@ def pkt(ver, src, dst, sport, dport, seq, ack, flags, payload=b"", tcpopts=b"", 
         ihl = 5 + len(ipopts) // 4
         total = 4 * ihl + len(tcp)
         ip = bytes([0x40 | ihl, tos, total >> 8, total & 255, ipid >> 8 & 255, ipid & 255, fragw >> 8, fragw & 255, ttl, 6, 0, 0]) + bytes(src) + bytes(dst) + ipopts
-        return bytes(dmac) + bytes(smac) + b"\x08\x00" + ip + tcp
+        return _trail(bytes(dmac) + bytes(smac) + b"\x08\x00" + ip + tcp, trailer)
     ip = bytes([0x60 | (tos >> 4), ((tos & 15) << 4) | (flow >> 16 & 15), flow >> 8 & 255, flow & 255, len(tcp) >> 8, len(tcp) & 255, 6, ttl]) + bytes(src) + bytes(dst)
-    return bytes(dmac) + bytes(smac) + b"\x86\xdd" + ip + tcp
+    return _trail(bytes(dmac) + bytes(smac) + b"\x86\xdd" + ip + tcp, trailer)
+
+
+def _trail(frame, trailer):
+    """link-layer trailer after the IP datagram: "pad" = zero padding to the 60-octet Ethernet minimum, "fcs" = 4 octets, "both" """
+    if trailer in ("pad", "both") and len(frame) < 60:
+        frame += bytes(60 - len(frame))
+    if trailer in ("fcs", "both"):
+        frame += b"\xde\xad\xbe\xef"
+    return frame
 
 
 def ep(addr, port):
@@ -79,6 +88,7 @@ def style(rng, c):
             "dmac": rng.choice(MACS), "smac": rng.choice(MACS), "syn": rng.randrange(len(SYNOPTS)), "tsopt": rng.random() < 0.4,
             "isn_c": rng.choice([rng.randrange(M32), M32 - 3, 0]), "isn_s": rng.choice([rng.randrange(M32), M32 - 1]),
             # extra bits on the handshake segments: ECN setup (SYN|ECE|CWR, SYN|ACK|ECE), PSH, URG
+            "trailer": rng.choice(["", "", "pad", "fcs", "both"]),
             "synflags": rng.choice([0x02, 0x02, 0x02, 0xc2, 0x42, 0x0a, 0x22]), "synackflags": rng.choice([0x12, 0x12, 0x12, 0x52, 0x1a, 0x92])}
 
 
@@ -98,11 +108,11 @@ def connection(rng, c, kind, ipid, maxpieces=4):
     def C(seq, ack, flags, payload=b"", opts=b""):
         k[0] += 1
         return pkt(ver, cip, sip, cp, sport, seq, ack, flags, payload, opts, ttl=st["ttl_c"], tos=st["tos"], ipid=ipid(), fragw=st["fragw"](k[0]), ipopts=st["ipopts"], flow=st["flow"],
-                   dmac=st["dmac"], smac=st["smac"])
+                   dmac=st["dmac"], smac=st["smac"], trailer=st["trailer"])
 
     def S(seq, ack, flags, payload=b"", opts=b""):
         k[0] += 1
-        return pkt(ver, sip, cip, sport, cp, seq, ack, flags, payload, opts, ttl=st["ttl_s"], tos=0, ipid=ipid(), fragw=st["fragw"](k[0]), ipopts=b"", flow=0, dmac=st["smac"], smac=st["dmac"])
+        return pkt(ver, sip, cip, sport, cp, seq, ack, flags, payload, opts, ttl=st["ttl_s"], tos=0, ipid=ipid(), fragw=st["fragw"](k[0]), ipopts=b"", flow=0, dmac=st["smac"], smac=st["dmac"], trailer=st["trailer"])
     ts = lambda v, e: (b"\x01\x01\x08\x0a" + (v % M32).to_bytes(4, "big") + (e % M32).to_bytes(4, "big")) if st["tsopt"] else b""
     syno = SYNOPTS[st["syn"]](1000 + c)
     frames = [C(ic, 0, st["synflags"], opts=syno), S(is_, ic + 1, st["synackflags"], opts=syno)]
